@@ -57,6 +57,18 @@ struct C18 : Harness {
                 if (kind == MK || kind == PM) p.push_back(mkop(opn(kind, "set_key")).set("s", i).set("t", -1).set("key", *gbytes(16)).set("len", 16).set("rounds", *irange(5, 8)).set("mode", *irange(0, 1)));
                 else if (kind == T128 || kind == T64) { p.push_back(mkop(opn(kind, "set_tweaked_key")).set("s", i).set("t", -1).set("key", *gbytes(bs)).set("len", bs)); p.push_back(mkop(opn(kind, "set_tweak")).set("s", i).set("t", -1).set("tweak", *gbytes(bs)).set("len", bs)); }
                 else { int len = bs * *irange(1, 3); p.push_back(mkop(opn(kind, "set_key")).set("s", i).set("t", -1).set("key", *gbytes(len)).set("len", len)); }
+                // the rest of the object's single-threaded life before it is shared: mode swaps (an odd number leaves
+                // work that an implementation might have deferred to the first use), a stored tweak, sometimes a first use
+                if (kind == MK || kind == PM) { int sw = *rc::gen::weightedOneOf<int>({{4, rc::gen::just(0)}, {4, rc::gen::just(1)}, {1, rc::gen::just(2)}, {1, rc::gen::just(3)}}); for (int k = 0; k < sw; ++k) p.push_back(mkop(opn(kind, "swap")).set("s", i).set("t", -1)); }
+                if (kind == MK && *chance(50)) p.push_back(mkop("mk.set_tweak").set("s", i).set("t", -1).set("tweak", *gbytes(8)).set("len", 8));
+                if (*chance(25)) {
+                    Op e;
+                    if (kind_is_par(kind)) { size_t nb = (size_t)*irange(1, 12) * bs; e = mkop(opn(kind, kind == PM ? "crypt" : "enc")); e.set("in", *gblocks(nb, (size_t)bs)); if (kind == PM) e.set("tweak", *gblocks(nb, 8)); }
+                    else if (kind == MK) { e = mkop("mk.crypt"); e.set("in", *gbytes(8)); }
+                    else { e = mkop(opn(kind, "enc")); e.set("in", *gbytes(bs)); }
+                    e.set("s", i).set("t", -1);
+                    p.push_back(e);
+                }
             }
             int nthreads = *irange(2, 8);
             for (int t = 0; t < nthreads; ++t) {
@@ -70,7 +82,7 @@ struct C18 : Harness {
                     if (nshared && *chance(40)) {
                         int si = *irange(0, nshared - 1); int kind = skinds[si]; int bs = kind_bs(kind);
                         Op e;
-                        if (kind_is_par(kind)) { size_t nb = (size_t)*irange(1, 12) * bs; e = mkop(opn(kind, kind == PM ? "crypt" : (*chance(50) ? "enc" : "dec"))); e.set("in", *gdata(nb)); if (kind == PM) e.set("tweak", *gdata(nb)); }
+                        if (kind_is_par(kind)) { size_t nb = (size_t)*irange(1, 12) * bs; e = mkop(opn(kind, kind == PM ? "crypt" : (*chance(50) ? "enc" : "dec"))); e.set("in", *gblocks(nb, (size_t)bs)); if (kind == PM) e.set("tweak", *gblocks(nb, 8)); }
                         else if (kind == MK) { e = mkop(*chance(50) ? "mk.crypt" : "mk.crypt_tw"); e.set("in", *gbytes(8)); if (e.name == "mk.crypt_tw") e.set("tweak", *gbytes(8)); }
                         else { e = mkop(opn(kind, *chance(50) ? "enc" : "dec")); e.set("in", *gbytes(bs)); }
                         e.set("s", si).set("sh", 1);
